@@ -262,6 +262,9 @@ func (p *Prog) TypesFuncOpt(pkg, name string) *types.Func {
 func (p *Prog) TypesFunc(pkg, name string) *types.Func {
 	f := p.TypesFuncOpt(pkg, name)
 	if f == nil {
+		f = p.renamedFunc(pkg, name)
+	}
+	if f == nil {
 		undecided("function %s.%s not found", pkg, name)
 	}
 	return f
@@ -278,6 +281,9 @@ func (p *Prog) Func(pkg, name string) *ssa.Function {
 
 func (p *Prog) FuncOpt(pkg, name string) *ssa.Function {
 	tf := p.TypesFuncOpt(pkg, name)
+	if tf == nil {
+		tf = p.renamedFunc(pkg, name)
+	}
 	if tf == nil {
 		return nil
 	}
@@ -483,4 +489,50 @@ func (c *Ctx) importRules(run func(*Ctx), fromProp string, rules map[string]stri
 
 func (c *Ctx) Note(format string, a ...interface{}) {
 	c.Notes = append(c.Notes, fmt.Sprintf(format, a...))
+}
+
+// renamedFunc follows a one-for-one rename of a baseline function: the anchor pkg.name is in the baseline function
+// list, the package has lost exactly that one baseline function and gained exactly one function that is not in the
+// list (a method turned into a plain function, a helper renamed). Anything else stays unresolved.
+func (p *Prog) renamedFunc(pkg, name string) *types.Func {
+	pk := p.Pkgs[pkg]
+	if pk == nil {
+		return nil
+	}
+	want := name
+	if i := strings.LastIndex(name, "."); i >= 0 {
+		want = strings.Trim(name[:i], "()*") + "." + name[i+1:]
+	}
+	if _, known := baselineFuncs[pkg+"\t"+want]; !known {
+		return nil
+	}
+	cur := map[string]*types.Func{}
+	for _, f := range pk.Syntax {
+		if p.isMockFile(f.Pos()) {
+			continue
+		}
+		for _, d := range f.Decls {
+			if fd, ok := d.(*ast.FuncDecl); ok {
+				if obj, _ := pk.TypesInfo.Defs[fd.Name].(*types.Func); obj != nil {
+					cur[declName(pkg, fd)] = obj
+				}
+			}
+		}
+	}
+	missing := 0
+	for k := range baselineFuncs {
+		if strings.HasPrefix(k, pkg+"\t") && cur[k] == nil {
+			missing++
+		}
+	}
+	var added []*types.Func
+	for k, obj := range cur {
+		if _, known := baselineFuncs[k]; !known {
+			added = append(added, obj)
+		}
+	}
+	if missing == 1 && len(added) == 1 {
+		return added[0]
+	}
+	return nil
 }
